@@ -23,7 +23,7 @@ ASSUMPTIONS = [
     "fake Device/Storage/Interface classes are the repository's test fakes (tests/annet/test_mesh/fakes.py)",
     "handlers set address families and shared options on the session only (per-peer families would legitimately differ between the two ends)",
 ]
-FLOORS = {"quick": {"topologies": 250, "executions": 3000, "mirrored_pairs": 600, "permutations_compared": 1500, "conflicts_expected": 30, "merge_law_checks": 3000, "shared_handler_constants_checked": 200, "peer_options_checked": 300, "shared_executor_runs": 150, "shared_executor_runs_with_differently_named_link_ends": 80, "linklocal_cases_with_two_neighbours_sharing_an_address": 25, "cases_with_family_only_device_handlers": 60, "family_only_handler_devices": 60, "cases_with_full_names_and_an_included_registry": 30, "indirect_sessions_with_differently_named_ends": 12},
+FLOORS = {"quick": {"topologies": 250, "executions": 3000, "mirrored_pairs": 600, "permutations_compared": 1500, "conflicts_expected": 30, "merge_law_checks": 3000, "shared_handler_constants_checked": 200, "peer_options_checked": 300, "shared_executor_runs": 150, "shared_executor_runs_with_differently_named_link_ends": 80, "linklocal_cases_with_two_neighbours_sharing_an_address": 25, "cases_with_family_only_device_handlers": 60, "family_only_handler_devices": 60, "cases_with_full_names_and_an_included_registry": 20, "indirect_sessions_with_differently_named_ends": 12, "cases_with_as_numbers_given_as_text": 40, "fabrics_with_short_names_shared_between_sites": 150, "sessions_between_sites_checked": 1500},
           "thorough": {"topologies": 9000, "executions": 100000, "mirrored_pairs": 20000, "permutations_compared": 50000, "conflicts_expected": 1000, "merge_law_checks": 100000, "shared_handler_constants_checked": 7000, "peer_options_checked": 10000, "shared_executor_runs": 5000, "shared_executor_runs_with_differently_named_link_ends": 2500, "linklocal_cases_with_two_neighbours_sharing_an_address": 800}}
 
 
@@ -188,7 +188,7 @@ def make_registry(rules, order, fq=False):
                 li, ri = first_int(left.match), first_int(right.match)
                 la, ra = addrs_for(r, li, ri, left.ports)
                 left.addr, right.addr = la, ra
-                left.asnum, right.asnum = r["asn_l"] + li, r["asn_r"] + ri
+                left.asnum, right.asnum = as_spelled(r, r["asn_l"] + li), as_spelled(r, r["asn_r"] + ri)
                 # even rule indices hand out one shared constant set (as `V4 = {"ipv4_unicast"}` at module level would), odd ones a fresh set
                 session.families = shared_families(rules, idx) if idx % 2 == 0 else set(r["families"])
                 if r.get("bfd"):
@@ -220,7 +220,7 @@ def make_registry(rules, order, fq=False):
             def ihandler(left, right, session, r=r):
                 li, ri = first_int(left.match), first_int(right.match)
                 left.addr, right.addr = "172.16.%d.%d/32" % (r["net"], li), "172.16.%d.%d/32" % (r["net"], 100 + ri)
-                left.asnum, right.asnum = r["asn_l"], r["asn_r"]
+                left.asnum, right.asnum = as_spelled(r, r["asn_l"]), as_spelled(r, r["asn_r"])
                 session.families = set(r["families"])
                 for k_, v_ in r.get("session", {}).items():
                     setattr(session, k_, v_)
@@ -263,12 +263,22 @@ def make_registry(rules, order, fq=False):
     return reg
 
 
+def as_spelled(r, v):
+    """AS numbers as a handler may give them: an int, or a text in decimal or asdot notation (`asnum` takes both)"""
+    t = r.get("as_text")
+    return v if not t else (str(v) if t == "dec" else "%d.%d" % (v >> 16, v & 0xFFFF))
+
+
+def as_read(v):
+    return str(int(v)) if isinstance(v, int) else "not a number: %r" % (v,)
+
+
 def canon_peer(p):
     import dataclasses
     opts = dataclasses.asdict(p.options) if p.options is not None else {}
-    return {"hostname": p.hostname, "addr": p.addr, "interface": p.interface, "remote_as": str(int(p.remote_as)), "families": sorted(p.families),
+    return {"hostname": p.hostname, "addr": p.addr, "interface": p.interface, "remote_as": as_read(p.remote_as), "families": sorted(p.families),
             "description": p.description, "vrf": p.vrf_name, "group": p.group_name, "import": p.import_policy, "export": p.export_policy,
-            "update_source": p.update_source, "options": {k: ((str(int(v)) if k == "local_as" else str(v)) if v is not None else None) for k, v in sorted(opts.items())}}
+            "update_source": p.update_source, "options": {k: ((as_read(v) if k == "local_as" else str(v)) if v is not None else None) for k, v in sorted(opts.items())}}
 
 
 def canon_global(g):
@@ -371,6 +381,13 @@ def check_case(seed, acc, ll=False, ext=False):
         topo["fq"] = True
         acc.count("cases_with_full_names_and_an_included_registry")
     if ext:
+        trng = random.Random(seed ^ 0xA5D)
+        t_ = trng.choice([None, "dec", "dot", "dot"])
+        if t_:
+            for r_ in rules:
+                if r_["type"] in ("direct", "indirect"):
+                    r_["as_text"] = t_
+            acc.count("cases_with_as_numbers_given_as_text")
         irng = random.Random(seed ^ 0x1F0)
         for r_ in rules:
             if r_["type"] == "indirect" and r_["iface"] in ("lo0", "none") and r_["left"].startswith("spine") and not r_.get("mesh2") and irng.random() < 0.9:
@@ -712,11 +729,97 @@ def run_merge(spec, acc):
             pass
 
 
+def check_twins(seed, acc):
+    """several sites in one fabric: devices of different domains share their short host name (`spine1.dc1.example` / `spine1.dc2.example`) and
+    the registry matches short names; a device cabled to (or peering indirectly with) both twins has a session with each, mirrored on each"""
+    from ipaddress import ip_interface
+    from annet.mesh import MeshExecutor, MeshRulesRegistry, separate_ports
+    from tests.annet.test_mesh.fakes import FakeStorage, FakeDevice, FakeInterface
+    rng = random.Random(seed)
+    ndc = rng.randint(2, 3)
+    spines = ["spine%d.dc%d.example" % (s_, d_) for d_ in range(1, ndc + 1) for s_ in range(1, rng.randint(1, 2) + 1)]
+    tors = ["tor%d.dc%d.example" % (t_, d_) for d_ in range(1, ndc + 1) for t_ in range(1, rng.randint(1, 2) + 1)]
+    rrs = ["rr1.dc%d.example" % d_ for d_ in range(1, ndc + 1)] if rng.random() < 0.7 else []
+    devices = spines + tors + rrs
+    asn = {d_: 64000 + i for i, d_ in enumerate(devices)}
+    links, cnt = [], {d_: 0 for d_ in devices}
+    for t_ in tors:
+        for s_ in rng.sample(spines, rng.randint(2, len(spines))):
+            for _ in range(rng.choice([1, 1, 2])):          # (parallel links: the neighbour is listed once per link)
+                links.append((t_, "e%d" % cnt[t_], s_, "e%d" % cnt[s_]))
+                cnt[t_] += 1
+                cnt[s_] += 1
+    ifs = {d_: [] for d_ in devices}
+    for n_, (a, pa, b, pb) in enumerate(links):
+        ifs[a].append(FakeInterface(pa, b, pb))
+        ifs[b].append(FakeInterface(pb, a, pa))
+    st, devs = FakeStorage(), {}
+    for d_ in devices:
+        ifs[d_].append(FakeInterface("lo0", None, None))
+        devs[d_] = FakeDevice(d_, ifs[d_])
+        devs[d_].storage = st
+        st.add_device(devs[d_])
+    link_no = {(a, pa): n_ for n_, (a, pa, b, pb) in enumerate(links)}
+    reg = MeshRulesRegistry(match_short_name=True)
+
+    def on_direct(tor, spine, session):
+        n_ = link_no[(tor.device.fqdn, tor.ports[0])]
+        tor.addr, spine.addr = "10.9.%d.0/31" % n_, "10.9.%d.1/31" % n_
+        tor.asnum, spine.asnum = asn[tor.device.fqdn], asn[spine.device.fqdn]
+        session.families = {"ipv4_unicast"}
+    reg.direct("tor{t}", "spine{s}", port_processor=separate_ports)(on_direct)
+
+    def on_indirect(spine, rr, session):
+        spine.addr, rr.addr = "172.20.%d.%d/32" % (devices.index(spine.device.fqdn), devices.index(rr.device.fqdn)), "172.21.%d.%d/32" % (devices.index(rr.device.fqdn), devices.index(spine.device.fqdn))
+        spine.asnum, rr.asnum = asn[spine.device.fqdn], asn[rr.device.fqdn]
+        spine.ifname = rr.ifname = "lo0"
+        session.families = {"ipv4_unicast"}
+    reg.indirect("spine{s}", "rr{r}")(on_indirect)
+    w = {"twins": True, "seed": seed, "devices": devices, "links": [list(l_) for l_ in links]}
+    ex = MeshExecutor(reg, st)
+    order = list(devices)
+    rng.shuffle(order)
+    res = {}
+    for d_ in order:
+        try:
+            res[d_] = ex.execute_for(devs[d_]).peers
+        except Exception as e:
+            acc.violation("C15/twins/exception-%s" % type(e).__name__, "the executor raised on a fabric whose sites re-use short host names", dict(w, device=d_, error=repr(e)[:300]))
+            return
+    acc.count("fabrics_with_short_names_shared_between_sites")
+    acc.count("executions", len(order))
+    acc.case(["twins", devices, links], nontrivial=True)
+    want = []       # (device, peer host, own interface, peer address)
+    for n_, (a, pa, b, pb) in enumerate(links):
+        want.append((a, b, pa, "10.9.%d.1" % n_, asn[b]))
+        want.append((b, a, pb, "10.9.%d.0" % n_, asn[a]))
+    for s_ in spines:
+        for r_ in rrs:
+            want.append((s_, r_, "lo0", "172.21.%d.%d" % (devices.index(r_), devices.index(s_)), asn[r_]))
+            want.append((r_, s_, "lo0", "172.20.%d.%d" % (devices.index(s_), devices.index(r_)), asn[s_]))
+    got = sorted((d_, p.hostname, p.interface, str(p.addr), int(p.remote_as)) for d_, ps in res.items() for p in ps)
+    acc.count("sessions_between_sites_checked", len(want))
+    if got != sorted(want):
+        missing = [x for x in sorted(want) if x not in got]
+        extra = [x for x in got if x not in want]
+        acc.violation("C15/twins/sessions-differ-from-the-cabling", "with short-name matching, a fabric whose sites re-use host names does not get exactly one session per link (and per indirect pair) on each end",
+                      dict(w, missing=missing[:6], unexpected=extra[:6]))
+        return
+    for d_ in devices:
+        for p in res[d_]:
+            q = [x for x in res[p.hostname] if x.hostname == d_ and any(str(ip_interface(a_[0]).ip) == str(p.addr) for a_ in devs[p.hostname].find_interface(x.interface).addrs)]
+            if not q:
+                acc.violation("C15/twins/peer-address-not-configured-on-the-other-end", "the address a device peers with is not on the interface of the other end's session", dict(w, device=d_, peer=[p.hostname, str(p.addr)]))
+                return
+
+
 def run_shard(spec, acc):
     if spec["mode"] == "replay":
         w = spec["witness"]
         if w.get("merge"):
             return run_merge({"tier": "quick", "seed": 0}, acc)
+        if w.get("twins"):
+            return check_twins(w["seed"], acc)
         check_case(w["seed"], acc, ll=bool(w.get("ll")), ext=bool(w.get("ext")))
         return
     if spec["mode"] == "merge":
@@ -724,6 +827,7 @@ def run_shard(spec, acc):
     tier, k, n = spec["tier"], spec["shard"], spec["nshards"]
     total = 320 if tier == "quick" else 10000
     rng = random.Random("C15/%s/%s" % (spec["seed"], k))
+    twrng = random.Random("C15/twins/%s/%s" % (spec["seed"], k))
     for j in range(total // n):
         w = check_case(rng.randrange(1 << 48), acc)
         if j < 2 and w:
@@ -732,3 +836,5 @@ def run_shard(spec, acc):
             check_case(rng.randrange(1 << 48), acc, ll=True)
         if j % 4 == 3:
             check_case(rng.randrange(1 << 48), acc, ext=True)
+        if j % 2 == 0:
+            check_twins(twrng.randrange(1 << 48), acc)
